@@ -540,7 +540,7 @@ theorem conditional_unlocated_reported_zero_witness :
 The composition of the layers above with the lexer (C12), parser (C11) and compiler / VM (C01) models
 is in `Props/C13Pipeline.lean`: `token_locations_in_source`, `parse_locs_from_tokens`,
 `node_locations_in_source`, `compile_locations`, `error_location_is_a_node`,
-`runtime_error_location_in_source`, `runtime_error_location_partial`; what is left is
-`runtime_error_location_goal` there. -/
+`runtime_error_location_in_source`, `runtime_error_location_partial`, `runtime_error_innermost_partial`;
+what is left is stated there (`runtime_error_innermost_goal`). -/
 
 end ExprModel.C13
